@@ -7,7 +7,7 @@ from k1 import Unit
 class DetachOnCancel(Unit):
     name = "detach_on_cancel/DetachOnCancel"; driver = "k1_detach"; cfg = "shim17"; handler = "detach"
     maxruns = {"quick": 3000, "thorough": 60000}
-    nrandom = {"quick": 300, "thorough": 3000}
+    nrandom = {"quick": 600, "thorough": 3000}
 
     def programs(self, tier):
         progs = []
